@@ -726,6 +726,12 @@ func (p *processor) ProcessBlock(ctx context.Context, block sync.Block) error {
 					p.haltedReason = fmt.Sprintf("error adding leaf to the exit tree: %v", err)
 					p.mu.Unlock()
 					p.log.Errorf("processor halted: %s", p.haltedReason)
+				} else {
+					// any other failure (e.g. a storage error) is not an inconsistency of the tree: the processor
+					// is not halted, so report the error as it is and let the driver retry this block, instead of
+					// making it stop the download while it keeps processing the blocks that are already buffered
+					p.log.Errorf("failed to add leaf to the exit tree at block %d: %v", block.Num, err)
+					return err
 				}
 				return sync.ErrInconsistentState
 			}
